@@ -16,10 +16,15 @@ def run(res, tier, seed, replay):
     # are forwarding stubs (jmp rel32 to a neighbour): only the named entry may change, the neighbours keep their bytes and values
     # between two lifetimes somebody else maps code over the page of the trampoline the first lifetime released
     mo = [(f"m{i} r0,r1,fk0,fk1,fk2,fk3 I:r{i % 2}:raw:0,C:r0|MAPOVER,I:r{(i + 1) % 2}:clo:1,C:r1|I:r0:fake:2", [[f"I:r{i % 2}:raw:0", "C:r0"], ["MAPOVER", f"I:r{(i + 1) % 2}:clo:1", "C:r1"], ["I:r0:fake:2"]]) for i in range(4)]
+    # the environment acts in the MIDDLE of a lifetime: after a function was faked a second time, somebody else maps code over the page of whatever
+    # trampoline was released most recently (the unchanged library releases none before the injector goes; then over one of an earlier lifetime)
+    def mn(i, ops1, ops2): return (f"n{i} r0,r1,fk0,fk1,fk2,fk3 " + ",".join(ops1) + "|" + ",".join(ops2), [ops1, ops2])
+    mo += [mn(0, ["I:r0:raw:0", "I:r0:clo:1", "MAPNOW", "C:r0"], ["I:r1:raw:2", "C:r1"]), mn(1, ["I:r1:clo:0", "C:r1", "I:r1:raw:3", "MAPNOW", "I:r0:fake:1", "C:r0", "C:r1"], ["I:r0:raw:0"]),
+           mn(2, ["I:r0:raw:0"], ["I:r0:raw:1", "I:r1:raw:2", "I:r0:clo:3", "MAPNOW", "I:r1:clo:0", "MAPNOW", "C:r0", "C:r1"]), mn(3, ["I:r0:unc:1", "I:r0:unc:2", "I:r0:raw:0", "MAPNOW"], ["MAPOVER", "I:r0:raw:1", "C:r0"])]
     histlib.check_histories(res, "c03", 0, seed + 34, "ranges", extra_lines=mo)
     import arenalib, random
     rr = random.Random(seed + 33)
-    modes = ["neigh"] * 6 + ["straddle"] * 6 + ["alias"] * 6 + ["foreign_lo"] * 4 + ["packed"] * 3 + ["page0"] * 2 + ["cet"] * 2
+    modes = ["neigh"] * 6 + ["straddle"] * 6 + ["alias"] * 6 + ["foreign_lo"] * 4 + ["packed"] * 3 + ["page0"] * 2 + ["cet"] * 2 + ["tight"] * 3 + ["tightbool"] * 2 + ["lastpage"]
     if tier == "thorough": modes = modes * 20 + ["mass350"]
     modes += ["mass350"]          # 350 fakes alive in one injector, somebody else's code pages next to the first pages the allocator can use
     histlib.check_histories(res, "c03", 0, seed + 33, "ranges", extra_lines=[arenalib.gen(rr, f"a{i}", mode=m) for i, m in enumerate(modes)])
